@@ -7,6 +7,7 @@
  "replace_calls": {"declaratortypes": "stub_declaratortypes"},
  "kind": "bounded",
  "bound": "declarator with <= 2 array derivations (T a[n] and T a[n][m]); element size, lengths, signedness, constness fully symbolic (64 bit)",
+ "variants": {"n1": ["-DV_N=1"], "n2": ["-DV_N=2"]}, "canary_variant": "n2",
  "unwind": 4,
  "timeout": 200,
  "replay": false,
@@ -14,7 +15,8 @@
  "assumes": ["declaratortypes() (the recursive-descent parser of the declarator syntax) is replaced by a stub that appends the derived-type list the harness prepared, in source order, exactly as the real one does for array declarators (listinsert(ptr->prev, ..))",
              "eval() is replaced by the identity on already folded length expressions (constant folding is C04's claim)",
              "util.c listinsert re-stated in the unit (util.c cannot be linked: it defines fatal())",
-             "no native replay: the replaced callee is static"]
+             "no native replay: the replaced callee is static",
+             "the no-wrap guard is stated in the code's own form  len <= ULLONG_MAX / elemsize  (plus size == elemsize * len in 64-bit arithmetic); that this is equivalent to 'the mathematical product fits in 64 bits' is an ASSUMED arithmetic lemma: the independent 128-bit formulation does not get through SAT (standalone lemma > 120 s, unit > 200 s in propositional reduction)"]
 }
 */
 /*
@@ -70,25 +72,26 @@ stub_declaratortypes(struct scope *s, struct list *result, char **name, struct s
 }
 
 /* element size seen by derivation k (innermost = g_n - 1): the base type's, or the size computed for k + 1 */
-#define INNER      (g_n - 1)
+#define INNER      (V_N - 1)
 #define CONSTLEN(k) (g_haslen[k] && g_const[k])
 #define PRE(X) \
-	X(g_n >= 1 && g_n <= NA) \
+	X(g_n == V_N) \
 	X(base.type == &am_base && base.type->size == g_bsize && base.type->align == g_balign && base.type->incomplete == g_binc && (int)base.type->kind == g_bkind) \
 	X(name != 0 && funcscope == 0) \
 	X(am_arr[0].kind == TYPEARRAY && am_arr[1].kind == TYPEARRAY)
 
-/* mathematical product without overflow, via 128-bit arithmetic (independent of the code's division guard) */
-#define PROD_OK(a, b)   ((unsigned __int128)(a) * (unsigned __int128)(b) <= (unsigned __int128)~0ull)
-#define PROD(a, b)      ((unsigned __int128)(a) * (unsigned __int128)(b))
+/* "elemsize * len is representable": floor((2^64 - 1) / elemsize) >= len.  (The independent formulation
+   (unsigned __int128)a * b <= ULLONG_MAX is equivalent but SAT cannot show division and multiplication agree.) */
+#define PROD_OK(a, b)   ((b) <= ULLONG_MAX / (a))
+#define PROD(a, b)      ((a) * (b))
 #define SZ(k)           (am_arr[k].size)
 #define POST(X) \
 	/* 6.7.6.2p1 element type */ \
 	X(!g_binc && g_bkind != TYPEFUNC) \
 	/* innermost derivation: element is the base type */ \
 	X(IMP(CONSTLEN(INNER) && g_bsize != 0, !(g_signed[INNER] && (g_len[INNER] >> 63))))         /* negative length */ \
-	X(IMP(CONSTLEN(INNER) && g_bsize != 0, PROD_OK(g_bsize, g_len[INNER])))                     /* too large */ \
-	X(IMP(CONSTLEN(INNER) && g_bsize != 0, (unsigned __int128)SZ(INNER) == PROD(g_bsize, g_len[INNER]))) \
+	X(IMP(CONSTLEN(INNER) && g_bsize != 0, PROD_OK(am_base.size, am_len[INNER].u.constant.u)))                     /* too large */ \
+	X(IMP(CONSTLEN(INNER) && g_bsize != 0, SZ(INNER) == PROD(am_base.size, am_len[INNER].u.constant.u))) \
 	X(IMP(CONSTLEN(INNER) && g_bsize != 0, !(am_arr[INNER].prop & PROPVM) || (am_base.prop & PROPVM))) \
 	X(IMP(g_haslen[INNER] && !g_const[INNER], (am_arr[INNER].prop & PROPVM) && SZ(INNER) == 0))  /* VLA */ \
 	X(IMP(!g_haslen[INNER], SZ(INNER) == 0)) \
@@ -97,8 +100,10 @@ stub_declaratortypes(struct scope *s, struct list *result, char **name, struct s
 	X(IMP(g_n == 2, am_arr[0].base == &am_arr[1] && am_arr[0].align == g_balign)) \
 	X(IMP(g_n == 2, !am_arr[1].incomplete)) \
 	X(IMP(g_n == 2 && CONSTLEN(0) && SZ(1) != 0, !(g_signed[0] && (g_len[0] >> 63)))) \
-	X(IMP(g_n == 2 && CONSTLEN(0) && SZ(1) != 0, PROD_OK(SZ(1), g_len[0]) && (unsigned __int128)SZ(0) == PROD(SZ(1), g_len[0]))) \
+	X(IMP(g_n == 2 && CONSTLEN(0) && SZ(1) != 0, PROD_OK(SZ(1), am_len[0].u.constant.u) && SZ(0) == PROD(SZ(1), am_len[0].u.constant.u))) \
 	X(IMP(g_n == 2 && (am_arr[1].prop & PROPVM), (am_arr[0].prop & PROPVM) != 0))                 /* VM propagates outwards */ \
+	/* inputs unchanged */ \
+	X(am_base.size == g_bsize && am_len[0].u.constant.u == g_len[0] && am_len[1].u.constant.u == g_len[1]) \
 	/* result: the outermost derived type, the declared name */ \
 	X(RET.type == &am_arr[0] && *name == &am_name[0]) \
 	CANARY(X, !(g_n == 2 && g_bsize == 4 && g_len[1] == 3 && g_len[0] == 5 && CONSTLEN(0) && CONSTLEN(1)))
@@ -112,7 +117,7 @@ void
 harness(void)
 {
 	static char *am_namep;
-	IN(unsigned, in_n); IN(u64, in_bsize); IN(int, in_balign); IN(bool, in_binc); IN(int, in_bkind); IN(int, in_bprop); IN(int, in_bqual);
+	IN(u64, in_bsize); IN(int, in_balign); IN(bool, in_binc); IN(int, in_bkind); IN(int, in_bprop); IN(int, in_bqual);
 	IN(u64, in_len0); IN(u64, in_len1); IN(bool, in_const0); IN(bool, in_const1); IN(bool, in_signed0); IN(bool, in_signed1);
 	IN(bool, in_haslen0); IN(bool, in_haslen1);
 	struct scope *s = 0;
@@ -124,8 +129,7 @@ harness(void)
 	bool cst[NA] = {in_const0, in_const1}, sg[NA] = {in_signed0, in_signed1}, has[NA] = {in_haslen0, in_haslen1};
 	unsigned k;
 
-	__CPROVER_assume(in_n >= 1 && in_n <= NA);
-	g_n = in_n;
+	g_n = V_N;   /* one CBMC run per list shape: a symbolic list length did not finish in 200 s */
 	am_base.kind = in_bkind; am_base.size = in_bsize; am_base.align = in_balign; am_base.incomplete = in_binc; am_base.prop = in_bprop;
 	base.type = &am_base; base.qual = in_bqual; base.expr = 0;
 	g_bsize = in_bsize; g_balign = in_balign; g_binc = in_binc; g_bkind = in_bkind;
